@@ -23,6 +23,8 @@ from copy import copy
 import inspect
 from numbers import Real
 
+import numpy as np
+
 from diffprivlib.utils import check_random_state
 
 
@@ -204,6 +206,11 @@ class TruncationAndFoldingMixin:  # pylint: disable=too-few-public-methods
 
         if lower > upper:
             raise ValueError("Lower bound must not be greater than upper bound")
+
+        # Numpy scalars become Python numbers: a float32 or int32 bound would otherwise make everything derived from the
+        # bounds (domain width, calibrated scale, folding arithmetic) run in that narrower type
+        lower = float(lower) if isinstance(lower, np.floating) else int(lower) if isinstance(lower, np.integer) else lower
+        upper = float(upper) if isinstance(upper, np.floating) else int(upper) if isinstance(upper, np.integer) else upper
 
         return lower, upper
 
